@@ -29,6 +29,7 @@ def run(ctx):
         jmenu += [("j1", [L], 0), ("j2zero", [L], 0)]
     ps = ml.e2_plans(ctx, menu, MONS, entry="front", conform=True)
     ps += ml.e2_plans(ctx, jmenu, MONS, entry="front", conform=True)
+    ps += ml.e2_plans(ctx, [("long6k", [3], 0)], MONS, entry="front", conform=False, inits=drivers.long_inits)
     ml.explore(ctx, ps)
     ml.e2_describe(ctx, ps, "Monitor (result fields only): cost == -overall_ll + within-series switching cost "
                    "(tolerance 1e-9 x (sum|terms| + T max beta)); one all_log_likelihood entry per labelled point; "
